@@ -8,6 +8,7 @@
  *   vsched explore <nthreads> <rounds> <runs> <seed> <trace>   seeded random schedules, ndjson for LockLin
  */
 #define _GNU_SOURCE
+#include "galloc.h"
 #include <ucontext.h>
 #include <stdarg.h>
 #include <stdio.h>
@@ -196,6 +197,7 @@ static int explore (int n, int rounds, int runs, unsigned seed, const char *trac
 }
 int main (int argc, char **argv) {
 	p_mem_restore_vtable ();
+	if (!ga_install ()) return 2;      /* fresh memory is garbage, released memory is overwritten (galloc.h) */
 	if (argc >= 4 && !strcmp (argv[1], "replay")) return replay (argv[2], argv[3]);
 	if (argc >= 7 && !strcmp (argv[1], "explore")) return explore (atoi (argv[2]), atoi (argv[3]), atoi (argv[4]), (unsigned) atoi (argv[5]), argv[6]);
 	return 2;
